@@ -1,6 +1,7 @@
 package smt
 
 import (
+	"path/filepath"
 	"bufio"
 	"fmt"
 	"io"
@@ -43,7 +44,12 @@ type Solver struct {
 }
 
 func NewSolver(ctx *Ctx, timeoutMs int) (*Solver, error) {
+	// z3 4.8.12 needs ~100x longer than 5.1.0 on the deep ite chains table look-ups produce;
+	// prefer z3-new (5.1.0) and fall back to the system z3.
 	s := &Solver{Ctx: ctx, TimeoutMs: timeoutMs, bin: "z3", args: []string{"-in", "-smt2"}}
+	if p, err := exec.LookPath("z3-new"); err == nil {
+		s.bin = p
+	}
 	if b := os.Getenv("GOSX_SOLVER"); b != "" {
 		f := strings.Fields(b)
 		s.bin, s.args = f[0], f[1:]
@@ -73,7 +79,7 @@ func (s *Solver) start() error {
 	s.scopes = [][]*Term{nil}
 	s.ufs = []map[string]bool{{}}
 	s.send("(set-option :print-success false)")
-	if s.bin == "z3" || strings.HasPrefix(s.bin, "z3") {
+	if strings.HasPrefix(filepath.Base(s.bin), "z3") {
 		s.send(fmt.Sprintf("(set-option :timeout %d)", s.TimeoutMs))
 	}
 	s.send("(set-option :produce-models true)")
